@@ -1286,7 +1286,7 @@ public:
     std::vector<short int> matches(dim, 0); // counts how many times a row could be assigned.
     Scalar min;
     Scalar h;
-    size_t uMin, uSubMin;
+    Scalar uMin, uSubMin;
     Scalar v2;
     std::vector<Scalar> d(dim); // 'cost-distance' in augmenting path calculation.
 
@@ -1357,7 +1357,7 @@ public:
         // find minimum and second minimum reduced cost over columns.
         uMin = assignCost(i, 0) - v[0];
         j1 = 0;
-        uSubMin = static_cast<size_t>(-std::log(0));
+        uSubMin = -std::log(0);
         for (j = 1; j < dim; j++)
         {
           h = assignCost(i, j) - v[j];
